@@ -529,6 +529,29 @@ def gen_contexts(ctx, K):
             for form in range(8):
                 if (v + form) % 3 == 0 or v in (0, 1, -1):
                     tests.append({'ctx': 'cond', 'T': form, 'tys': [T], 'vals': [v], 'e': ('V', 0), 'tag': 'cond'})
+    # truth tests of values whose register carries stale upper bits (codegen.c cmp_zero must compare 32 bits for types of at most
+    # 4 bytes): a long / unsigned long with zero low bits and a non-zero upper half narrowed - by a cast (i64 -> i32 emits no
+    # instruction) or by assignment - to every narrower type, and `~` (a 64-bit `not`) of an all-ones 32-bit result; used as the
+    # operand of !, &&, ||, ?:, (_Bool) and as controlling expression of if / while / for
+    def truth_forms(ne, tys_, vals_):
+        out = [{'ctx': 'cond', 'T': form, 'tys': tys_, 'vals': vals_, 'e': ne, 'tag': 'narrowed-truth'} for form in range(8)]
+        for w in (('U', 'lognot', ne), ('AND', ne, ('L', 'i32', 1)), ('OR', ne, ('L', 'i32', 0)), ('AND', ('L', 'i32', 1), ne),
+                  ('OR', ('L', 'i32', 0), ne), ('C', ne, ('L', 'i32', 10), ('L', 'i32', 20)), ('CAST', 'bool', ne),
+                  ('U', 'lognot', ('U', 'lognot', ne))):
+            out.append({'ctx': 'val', 'tys': tys_, 'vals': vals_, 'e': w, 'tag': 'narrowed-truth'})
+        return out
+    for T in TYS:
+        for wide in ('i64', 'u64'):
+            for v in (0x500000000, -(1 << 32), 1 << 32, -(1 << 63), 0x7fffffff00000000, 1 << 40, 0x10000, 0x100000100):
+                v = v & M64 if wide == 'u64' else v
+                if not (tmin(wide) <= v <= tmax(wide)):
+                    continue
+                tests += truth_forms(('CAST', T, ('V', 0)), [wide, T], [v, 1])
+                tests += truth_forms(('SET', 1, ('V', 0)), [wide, T], [v, 1])
+    for ta, a, b in (('u32', 0xffff0000, 0x0000ffff), ('i32', 0x0f0f0f0f, -252645136), ('u32', 0xffffffff, 0), ('i32', -1, 0),
+                     ('u16', 0xff00, 0x00ff), ('i8', -1, 0)):
+        for op in ('bor', 'bxor'):
+            tests += truth_forms(('U', 'bitnot', ('B', op, ('V', 0), ('V', 1))), [ta, ta], [a, b])
     # enum-typed objects behave as int
     for v in boundary('i32'):
         for op in ('add', 'sub', 'mul', 'lt', 'shr', 'band'):
